@@ -12,7 +12,7 @@
    ([set (STEP := ...)]), recursive calls are found by matching on the function name. *)
 From Coq Require Import List Arith Bool ZArith Lia.
 Import ListNotations.
-From AgileV Require Import TR.PyLib C11.Model C11.TreeProofs C11.GenericProofs.
+From AgileV Require Import TR.PyLib C11.Model C11.TreeProofs C11.GenericProofs C11.Strict.
 From AgileGen Require Import GenC11.
 
 Lemma zget_ok {A} (l : list A) (i : Z) (d : A) :
@@ -291,21 +291,26 @@ Definition i_min_min (t : list (option C)) : res C :=
 Definition i_mul_z (a : C) (i : Z) : C := c_mul C a (c_of_nat C (Z.to_nat i)).
 Definition i_div_z (a : C) (i : Z) : C := c_div C a (c_of_nat C (Z.to_nat i)).
 
+(* the ReplayBuffer part of the object, as far as these methods look at it: the number of stored transitions.
+   super().add(data) makes it min(size + rows, max_size) (C09: rb_add), self.size reads it *)
+Definition i_padd (M : nat) (sz rows : nat) : nat := Nat.min (sz + rows) M.
+
 Definition per_fields (s : per C) : list C * list (option C) * C := (sumt C s, mint C s, max_prio C s).
 
 Definition t_update (s : per C) (idx : Z) (p : C) :=
   PER_update_priority C powa powb i_sum_get i_min_min i_sum_set i_min_set i_sum_total i_sum_retrieve i_mul_z i_div_z
-    (fun (x : unit) (_ : nat) => x) Z.of_nat
-    (Z.of_nat (max_size C s)) (sumt C s) (mint C s) (max_prio C s) idx p.
+    (i_padd (max_size C s)) Z.of_nat Z.of_nat
+    (Z.of_nat (max_size C s)) (sumt C s) (mint C s) (max_prio C s) (size C s) idx p.
 
+(* against the model with the REPAIRED assertion (fix 123e2e4: 0 <= idx < self.size), C11/Strict.v with strict = true *)
 Theorem C11_translated_update_priority_is_model :
   forall (s : per C) (idx : nat) (p : C), tcap C s = tc ->
     t_update s (Z.of_nat idx) p
-    = match update_priority C powa s idx p with Some s' => Ok (per_fields s') | None => PyErr AssertionError end.
+    = match update_priority_g C powa true s idx p with Some s' => Ok (per_fields s') | None => PyErr AssertionError end.
 Proof.
-  intros s idx p Htc. unfold t_update, PER_update_priority, update_priority. cbv zeta.
+  intros s idx p Htc. unfold t_update, PER_update_priority, update_priority_g, idx_bound. cbv zeta.
   destruct (Z.leb_spec 0 (Z.of_nat idx)); [|lia].
-  destruct (Nat.ltb_spec idx (max_size C s)); destruct (Z.ltb_spec (Z.of_nat idx) (Z.of_nat (max_size C s))); try lia;
+  destruct (Nat.ltb_spec idx (size C s)); destruct (Z.ltb_spec (Z.of_nat idx) (Z.of_nat (size C s))); try lia;
     cbn [andb]; [|reflexivity].
   unfold per_fields, i_sum_set, i_min_set, py_max. cbn [sumt mint max_prio]. rewrite Nat2Z.id, Htc. reflexivity.
 Qed.
@@ -317,45 +322,58 @@ Proof. reflexivity. Qed.
 
 Definition t_add (s : per C) (n : nat) :=
   PER_add C powa powb i_sum_get i_min_min i_sum_set i_min_set i_sum_total i_sum_retrieve i_mul_z i_div_z
-    (fun (x : unit) (_ : nat) => x) Z.of_nat
-    (Z.of_nat (max_size C s)) (sumt C s) (mint C s) (max_prio C s) (Z.of_nat (tree_ptr C s)) tt n.
+    (i_padd (max_size C s)) Z.of_nat Z.of_nat
+    (Z.of_nat (max_size C s)) (sumt C s) (mint C s) (max_prio C s) (size C s) (Z.of_nat (tree_ptr C s)) n.
 
 Definition per_fields_ptr (s : per C) := (sumt C s, mint C s, max_prio C s, Z.of_nat (tree_ptr C s)).
 
-Lemma update_keeps (s s' : per C) idx p : update_priority C powa s idx p = Some s' ->
-  max_size C s' = max_size C s /\ tcap C s' = tcap C s /\ tree_ptr C s' = tree_ptr C s /\ idx < max_size C s.
+Lemma update_keeps (s s' : per C) idx p : update_priority_g C powa true s idx p = Some s' ->
+  max_size C s' = max_size C s /\ tcap C s' = tcap C s /\ tree_ptr C s' = tree_ptr C s /\ size C s' = size C s /\
+  idx < size C s.
 Proof.
-  unfold update_priority. destruct (Nat.ltb_spec idx (max_size C s)); [|discriminate].
+  unfold update_priority_g, idx_bound. destruct (Nat.ltb_spec idx (size C s)); [|discriminate].
   intros E. injection E as <-. cbn. auto.
 Qed.
 
-(* the priority loop of add: n new entries get the current maximal priority at tree_ptr, which wraps at max_size *)
+(* add: super().add(data) first (the stored count becomes min(size + n, max_size)), then n new entries get the current
+   maximal priority at tree_ptr, which wraps at max_size; every one of them must be a stored slot *)
 Theorem C11_translated_per_add_is_model :
   forall (s : per C) (n : nat), tcap C s = tc ->
-    t_add s n = match add_loop C powa n s with
-                | Some s' => Ok (sumt C s', mint C s', max_prio C s', Z.of_nat (tree_ptr C s'), tt)
+    t_add s n = match per_add_g C powa true s n with
+                | Some s' => Ok (sumt C s', mint C s', max_prio C s', Z.of_nat (tree_ptr C s'), size C s')
                 | None => PyErr AssertionError
                 end.
 Proof.
-  intros s n Htc. unfold t_add, PER_add. cbv zeta. unfold for_range. rewrite Z.sub_0_r, Nat2Z.id.
-  set (M := max_size C s).
+  intros s n Htc. unfold t_add, PER_add, per_add_g.
+  set (s0 := {| max_size := max_size C s; tcap := tcap C s; size := Nat.min (size C s + n) (max_size C s);
+                cursor := (cursor C s + n) mod max_size C s; tree_ptr := tree_ptr C s; max_prio := max_prio C s;
+                sumt := sumt C s; mint := mint C s |}).
+  cbv zeta. unfold for_range. rewrite Z.sub_0_r, Nat2Z.id.
+  set (M := max_size C s). unfold i_padd. set (SZ := Nat.min (size C s + n) M).
   match goal with |- context [for_go _ _ ?body _] => set (BODY := body) end.
-  assert (L : forall k i s1, tcap C s1 = tc -> max_size C s1 = M ->
+  assert (L : forall k i s1, tcap C s1 = tc -> max_size C s1 = M -> size C s1 = SZ ->
              for_go k i BODY (per_fields_ptr s1)
-             = match add_loop C powa k s1 with Some s' => Ok (per_fields_ptr s') | None => PyErr AssertionError end).
-  { induction k as [|k IH]; intros i s1 H1 H2; [reflexivity|].
+             = match add_loop_g C powa true k s1 with Some s' => Ok (per_fields_ptr s') | None => PyErr AssertionError end).
+  { induction k as [|k IH]; intros i s1 H1 H2 H3; [reflexivity|].
     rewrite for_go_S. unfold BODY at 1. unfold per_fields_ptr at 1.
     pose proof (C11_translated_update_priority_is_model s1 (tree_ptr C s1) (max_prio C s1) H1) as HU.
-    unfold t_update in HU. rewrite H2 in HU. rewrite HU. clear HU. cbn [add_loop].
-    destruct (update_priority C powa s1 (tree_ptr C s1) (max_prio C s1)) as [s2|] eqn:EU; [|reflexivity].
-    destruct (update_keeps _ _ _ _ EU) as (K1 & K2 & K3 & K4).
+    unfold t_update in HU. rewrite H2, H3 in HU. unfold i_padd in HU. fold M in HU. rewrite HU. clear HU. cbn [add_loop_g].
+    destruct (update_priority_g C powa true s1 (tree_ptr C s1) (max_prio C s1)) as [s2|] eqn:EU; [|reflexivity].
+    destruct (update_keeps _ _ _ _ EU) as (K1 & K2 & K3 & K4 & K5).
     unfold per_fields. cbn [bind]. unfold zmod.
+    assert (0 < M) by (unfold SZ in H3; lia).
     destruct (Z.eqb_spec (Z.of_nat M) 0); [lia|]. cbn [bind].
     rewrite <- (IH (i + 1)%Z (set_ptr C s2 ((tree_ptr C s1 + 1) mod max_size C s1))) by (cbn; congruence).
     unfold per_fields_ptr, set_ptr. cbn [sumt mint max_prio tree_ptr].
     rewrite H2. rewrite Nat2Z.inj_mod, Nat2Z.inj_add. reflexivity. }
-  pose proof (L n 0%Z s Htc eq_refl) as HL. unfold per_fields_ptr at 1 in HL. rewrite HL.
-  destruct (add_loop C powa n s); reflexivity.
+  pose proof (L n 0%Z s0 Htc eq_refl eq_refl) as HL. unfold per_fields_ptr at 1 in HL. cbn [sumt mint max_prio tree_ptr s0] in HL.
+  rewrite HL.
+  assert (KS : forall k s1 s', add_loop_g C powa true k s1 = Some s' -> size C s' = size C s1).
+  { induction k as [|k IHk]; intros s1 s' E; cbn [add_loop_g] in E; [injection E as <-; reflexivity|].
+    destruct (update_priority_g C powa true s1 (tree_ptr C s1) (max_prio C s1)) as [s2|] eqn:EU; [|discriminate].
+    destruct (update_keeps _ _ _ _ EU) as (_ & _ & _ & K4 & _). apply IHk in E. cbn [set_ptr size] in E. congruence. }
+  destruct (add_loop_g C powa true n s0) as [s'|] eqn:EA; [|reflexivity].
+  rewrite (KS _ _ _ EA). reflexivity.
 Qed.
 
 Lemma zget_mid {A} (pre : list A) (x : A) (r : list A) : zget (pre ++ x :: r) (Z.of_nat (length pre)) = Ok x.
@@ -368,14 +386,14 @@ Definition zs (l : list nat) : list Z := map Z.of_nat l.
 
 Definition t_update_all (s : per C) (idxs : list nat) (prios : list C) :=
   PER_update_priorities C powa powb i_sum_get i_min_min i_sum_set i_min_set i_sum_total i_sum_retrieve i_mul_z i_div_z
-    (fun (x : unit) (_ : nat) => x) Z.of_nat
-    (Z.of_nat (max_size C s)) (sumt C s) (mint C s) (max_prio C s) (zs idxs) prios.
+    (i_padd (max_size C s)) Z.of_nat Z.of_nat
+    (Z.of_nat (max_size C s)) (sumt C s) (mint C s) (max_prio C s) (size C s) (zs idxs) prios.
 
 (* update_priorities: index / priority pairs in step, every priority floored at 1e-5, the first failing assert stops *)
 Theorem C11_translated_update_priorities_is_model :
   forall (s : per C) (idxs : list nat) (prios : list C), tcap C s = tc ->
     t_update_all s idxs prios
-    = match per_update C powa s (combine idxs prios) with
+    = match per_update_g C powa true s (combine idxs prios) with
       | (s', false) => Ok (per_fields s')
       | (_, true) => PyErr AssertionError
       end.
@@ -385,30 +403,30 @@ Proof.
   set (M := max_size C s).
   match goal with |- context [for_go _ _ ?body _] => set (BODY := body) end.
   assert (L : forall irest ipre ppre prest s1, idxs = ipre ++ irest -> prios = ppre ++ prest ->
-             length ppre = length ipre -> tcap C s1 = tc -> max_size C s1 = M ->
+             length ppre = length ipre -> tcap C s1 = tc -> max_size C s1 = M -> size C s1 = size C s ->
              for_go (Nat.min (length irest) (length prest)) (Z.of_nat (length ipre)) BODY (per_fields s1)
-             = match per_update C powa s1 (combine irest prest) with
+             = match per_update_g C powa true s1 (combine irest prest) with
                | (s', false) => Ok (per_fields s') | (_, true) => PyErr AssertionError end).
-  { induction irest as [|i irest IH]; intros ipre ppre prest s1 Hi Hp Hl H1 H2; [reflexivity|].
+  { induction irest as [|i irest IH]; intros ipre ppre prest s1 Hi Hp Hl H1 H2 H3; [reflexivity|].
     destruct prest as [|p prest]; [reflexivity|].
-    cbn [length Nat.min combine per_update]. rewrite for_go_S. unfold BODY at 1. unfold per_fields at 1.
+    cbn [length Nat.min combine per_update_g]. rewrite for_go_S. unfold BODY at 1. unfold per_fields at 1.
     rewrite Hi at 1. rewrite map_app. cbn [map].
     replace (Z.of_nat (length ipre)) with (Z.of_nat (length (map Z.of_nat ipre))) at 1 by (rewrite map_length; reflexivity).
     rewrite zget_mid. cbn [bind]. cbv zeta.
     rewrite Hp at 1. rewrite <- Hl at 1. rewrite zget_mid. cbn [bind].
     pose proof (C11_translated_update_priority_is_model s1 i (floor_prio C p) H1) as HU.
-    unfold t_update, floor_prio in HU. rewrite H2 in HU. unfold py_max at 1. rewrite HU. clear HU.
+    unfold t_update, floor_prio in HU. rewrite H2, H3 in HU. unfold py_max at 1. rewrite HU. clear HU.
     fold (floor_prio C p).
-    destruct (update_priority C powa s1 i (floor_prio C p)) as [s2|] eqn:EU; [|reflexivity].
-    destruct (update_keeps _ _ _ _ EU) as (K1 & K2 & K3 & K4). cbn [bind].
+    destruct (update_priority_g C powa true s1 i (floor_prio C p)) as [s2|] eqn:EU; [|reflexivity].
+    destruct (update_keeps _ _ _ _ EU) as (K1 & K2 & K3 & K4 & K5). cbn [bind].
     replace (Z.of_nat (length ipre) + 1)%Z with (Z.of_nat (length (ipre ++ [i]))) by (rewrite app_length; cbn [length]; lia).
     apply (IH (ipre ++ [i]) (ppre ++ [p]) prest s2); try congruence.
     - rewrite <- app_assoc. exact Hi.
     - rewrite <- app_assoc. exact Hp.
     - rewrite !app_length. cbn [length]. lia. }
-  pose proof (L idxs [] [] prios s eq_refl eq_refl eq_refl Htc eq_refl) as HL.
+  pose proof (L idxs [] [] prios s eq_refl eq_refl eq_refl Htc eq_refl eq_refl) as HL.
   cbn [length Z.of_nat] in HL. unfold per_fields at 1 in HL. rewrite HL.
-  destruct (per_update C powa s (combine idxs prios)) as [s' [|]]; reflexivity.
+  destruct (per_update_g C powa true s (combine idxs prios)) as [s' [|]]; reflexivity.
 Qed.
 
 Lemma upd_nat_mid {A} (pre : list A) (x v : A) (r : list A) : upd_nat (pre ++ x :: r) (length pre) v = pre ++ v :: r.
@@ -424,7 +442,7 @@ Qed.
 
 Definition t_sample (s : per C) (us : list C) :=
   PER_sample_proportional C powa powb i_sum_get i_min_min i_sum_set i_min_set i_sum_total i_sum_retrieve i_mul_z i_div_z
-    (fun (x : unit) (_ : nat) => x) Z.of_nat (sumt C s) (Z.of_nat (length us)) us.
+    (i_padd (max_size C s)) Z.of_nat Z.of_nat (sumt C s) (Z.of_nat (length us)) us.
 
 (* _sample_proportional(batch_size) with the batch_size uniform draws us: one stratum per draw, upper bound
    u * (b - a) + a with a = segment * i, b = segment * (i + 1), the retrieved leaf stored at position i *)
@@ -464,7 +482,7 @@ Qed.
 
 Definition t_weights (s : per C) (idxs : list nat) :=
   PER_calculate_weights C powa powb i_sum_get i_min_min i_sum_set i_min_set i_sum_total i_sum_retrieve i_mul_z i_div_z
-    (fun (x : unit) (_ : nat) => x) Z.of_nat (sumt C s) (mint C s) (Z.of_nat (size C s)) (zs idxs).
+    (i_padd (max_size C s)) Z.of_nat Z.of_nat (sumt C s) (mint C s) (Z.of_nat (size C s)) (zs idxs).
 
 (* _calculate_weights: p_min from the min tree, max_weight = (p_min * size) ** -beta, per index
    ((leaf / total) * size) ** -beta / max_weight; an empty buffer (min = +inf, the model's None) and an index outside
